@@ -110,6 +110,10 @@ def mutants(text, N):
     rep("immutable", "parameter, after a return in the same block", "    return (+ a b)\n}", "    return (+ a b)\n    set a 1\n}")
     rep("let-type", "string into int, after a return in the same block", "    return (+ a b)\n}", "    return (+ a b)\n    let zq9: int = \"s\"\n}")
     rep("unknown-name", "variable, after a return inside an if branch", "        return (+ s \"!\")\n", "        return (+ s \"!\")\n        (println zz_undefined)\n")
+    # ... of a kind only the type checker can catch (the back ends compile it), in a block that is not the function's last
+    rep("immutable", "parameter, after a return inside an if branch", "        return (+ s \"!\")\n", "        return (+ s \"!\")\n        set s \"x\"\n")
+    rep("let-type", "string into int, after a return inside an if branch", "        return (+ s \"!\")\n", "        return (+ s \"!\")\n        let zq8: int = \"s\"\n")
+    rep("operand-type", "bool plus int, after a return inside an if branch", "        return (+ s \"!\")\n", "        return (+ s \"!\")\n        (println (+ true 1))\n")
     # immutability is a property of the declaration, not of the name: an earlier `let mut` of the same name and type elsewhere
     rep("immutable", "parameter named like an earlier mutable local of another function", "fn main() -> int {",
         "fn late9(%s: int) -> int {\n    set %s 5\n    return %s\n}\nshadow late9 { assert (== 1 1) }\nfn main() -> int {" % (t, t, t))
